@@ -223,9 +223,67 @@ def r12b(ctx, P):
                "numeric_values lacks an arm for %s" % sorted(need - handled), "%s:%s" % (nv.file, nv.line))
 
 
+def r12c(ctx, P):
+    rid = "R12.c"
+    ctx.rule(rid, "AGREE (collect vs finish): every field of SegmentAggregationCollector that holds AggregationNode values and is "
+                  "consumed by `finish` is also iterated by the per-document `collect`, whose loop calls AggregationNode::collect on "
+                  "each element unconditionally; the same holds for the bucket collectors' child maps (a node that is finished but "
+                  "never fed reports an empty result for documents it should have counted, e.g. its `missing` bucket)")
+    adt = P.adts.get(AGGS + "SegmentAggregationCollector")
+    col = P.fn("<searchlite_core::query::aggs::SegmentAggregationCollector<'_> as searchlite_core::query::collector::DocCollector>::collect")
+    fin = P.fn("<searchlite_core::query::aggs::SegmentAggregationCollector<'_> as searchlite_core::query::collector::AggregationSegmentCollector>::finish")
+    if not (ctx.anchor(rid, adt, "SegmentAggregationCollector") and ctx.anchor(rid, col, "SegmentAggregationCollector::collect") and
+            ctx.anchor(rid, fin, "SegmentAggregationCollector::finish")):
+        return
+    ctx.saw(col)
+    ctx.saw(fin)
+    node_fields = [f[0] for f in adt["variants"][0]["fields"] if "AggregationNode" in f[1] or "Aggregation" in f[1] and "BTreeMap" in f[1]]
+    ctx.floor(rid, len(node_fields), 1, "node-holding fields of SegmentAggregationCollector")
+
+    def fields_touched(g):
+        out = set()
+        for h in [g] + P.closures_of(g):
+            for b, i, s in h.stmts():
+                if s["k"] != "assign":
+                    continue
+                rv = s["rv"]
+                pls = []
+                if rv["k"] in ("ref", "discr"):
+                    pls.append(rv["place"])
+                elif rv["k"] in ("use", "cast"):
+                    pl = op_place(rv["a"])
+                    if pl:
+                        pls.append(pl)
+                for pl in pls:
+                    out |= {e["f"] for e in pl["p"] if isinstance(e, dict) and "f" in e and e.get("of") == AGGS + "SegmentAggregationCollector"}
+        return out
+    in_col, in_fin = fields_touched(col), fields_touched(fin)
+    for fl in node_fields:
+        ok = (fl in in_col) or (fl not in in_fin)
+        ctx.ob(rid, "%s:SegmentAggregationCollector.%s" % (rid, fl), ok,
+               "every node in `%s` is fed by collect and finished by finish" % fl if ok else
+               "nodes in `%s` are finished but never fed by the per-document collect: their aggregations silently miss documents" % fl,
+               "%s:%s" % (col.file, col.line))
+    # the feeding call is unconditional inside the loop (only the iterator's Some/None test controls it)
+    calls = [b for b, t in col.calls() if callee_of(t).endswith("AggregationNode::<'a>::collect")]
+    for cb in calls:
+        deps = col.control_deps_transitive(cb)
+        extra = []
+        for (a, succ) in deps:
+            t = col.blocks[a]["term"]
+            if t["k"] == "switch" and not any("ForLoop" in m for m in t.get("macros", [])):
+                extra.append(Site(col, a))
+        ctx.ob(rid, "%s:SegmentAggregationCollector::collect:unconditional-feed" % rid, not extra,
+               "every top-level node receives every collected document" if not extra else
+               "the per-document feed at %s is conditional on the test at %s: some aggregations skip documents" % (Site(col, cb).loc(), extra[0].loc()),
+               Site(col, cb).loc())
+    ctx.floor(rid + ".feed", len(calls), 1, "AggregationNode::collect call in the per-document loop")
+
+
 def run(ctx, progs):
     P = progs.get("default")
     r12a(ctx, P)
     r12b(ctx, P)
+    r12c(ctx, P)
     ctx.assumptions += ["shard_size is documented as an approximation knob and is outside the property's exact kinds",
                         "bucket lists are recognised as the receivers of truncate/retain/filter/take in finishers and merge arms"]
